@@ -177,7 +177,7 @@ theorem index_invariant (refs : List Ref) (ri : Option Nat) (ref : Ref) (hnd : (
 /-- for EVERY history (any number of requests, any order, any interleaving of stores, re-reads and
     invalidations of the index): an index holds at most as many references as there are distinct
     variants among the responses stored for the URI -/
-theorem every_reachable_index_bounded (T : List (Str × Str × List (Str × Str))) (refs : List Ref)
+theorem every_reachable_index_bounded (T : List (Str × List (Str × Str))) (refs : List Ref)
     (h : ReachableIndex T refs) : refs.length ≤ T.length :=
   reachable_index_bounded T refs h
 
@@ -224,9 +224,22 @@ theorem validation_result_keyed_by_client_request (cfg : Cfg) (t0 : Int) (req : 
       · exact Or.inr ⟨_, h'⟩
 
 /-- non-vacuity (a test): an index reached by two stores of the same variant and one of another -/
-example : ReachableIndex [((str% "k#0"), [], []), ((str% "k#1"), (str% "X-A"), [((str% "X-A"), (str% "1"))])]
+example : ReachableIndex [((str% "k#0"), []), ((str% "k#1"), [((str% "X-A"), (str% "1"))])]
     (dedupeRefs (placeRef (dedupeRefs (placeRef [] none ⟨(str% "k#0"), [], [], none⟩).1 (placeRef [] none ⟨(str% "k#0"), [], [], none⟩).2 ⟨(str% "k#0"), [], [], none⟩) none ⟨(str% "k#0"), [], [], none⟩).1
       (placeRef (dedupeRefs (placeRef [] none ⟨(str% "k#0"), [], [], none⟩).1 (placeRef [] none ⟨(str% "k#0"), [], [], none⟩).2 ⟨(str% "k#0"), [], [], none⟩) none ⟨(str% "k#0"), [], [], none⟩).2 ⟨(str% "k#0"), [], [], none⟩) :=
   .stored none _ (.stored none _ .empty (by decide)) (by decide)
+
+/-- one variant, one reference — however the origin spells its Vary value. Two references with the same
+    identifier and the same nominated fields and values are the same variant (`sameVariant`), whatever their
+    recorded Vary strings: a store drops the older one. (The pinned de-duplication also compared the raw Vary
+    string: "X-B, X-C" and "X-C, X-B" gave two references to ONE stored response; the second survived the
+    replacement of the first and kept the replaced representation in use, and every new spelling added one more.) -/
+theorem spelling_of_vary_does_not_multiply_references (a b : Ref) (hid : a.id = b.id) (hres : a.resolved = b.resolved) :
+    sameVariant a b = true := by
+  unfold sameVariant; simp [hid, hres]
+
+example : (dedupeRefs (placeRef [⟨(str% "k#7"), (str% "X-B, X-C"), [((str% "X-B"), (str% "b")), ((str% "X-C"), [])], none⟩] none
+              ⟨(str% "k#7"), (str% "X-C, X-B"), [((str% "X-B"), (str% "b")), ((str% "X-C"), [])], none⟩).1 1
+              ⟨(str% "k#7"), (str% "X-C, X-B"), [((str% "X-B"), (str% "b")), ((str% "X-C"), [])], none⟩).length = 1 := by decide
 
 end Httpcache.C19
